@@ -125,10 +125,12 @@ def classify(diags, fmap, genfile, unit, cfg):
         rec = dict(unit=unit, cfg=cfg, message=msg, line=line, fn=fn, origin=origin, src=src,
                    tags=[t[0] for t in tags], rendered=d.get('rendered', ''), genfile=genfile)
         props = set()
+        explicit = False
         for (t, ps) in tags:
             if ps:
-                props |= set(ps)
-        if not props:
+                explicit = True
+                props |= set(p for p in ps if p != 'none')
+        if not props and not explicit:
             props = set(fmap.origin_props.get(origin, []))
         rec['props'] = sorted(props)
         verification_msgs = ('postcondition not satisfied', 'precondition not satisfied', 'invariant not satisfied',
